@@ -344,7 +344,7 @@ def plan(tier, seed, workdir):
     import bare_script.runtime as rt
     p = Plan('C16', 'exploration')
     p.encode(L._datetime_new, V.value_round_number, V.value_parse_datetime, V.value_string, rt.evaluate_expression)
-    for fn in ('lemma_carry', 'lemma_loops', 'lemma_unique', 'lemma_subtract_rounding'):
+    for fn in ('lemma_carry', 'lemma_loops', 'lemma_unique', 'lemma_subtract_rounding', 'lemma_iso'):
         p.add({'kind': 'lemma', 'id': fn, 'module': 'vf.props.c16', 'fn': fn, 'kwargs': {}, 'timeout': 900, 'est': 60}, family='E2 ' + fn)
     p.add({'kind': 'native', 'id': 'tz_roundtrip_native', 'module': 'vf.props.c16', 'fn': 'tz_roundtrip_native', 'kwargs': {}, 'timeout': 600, 'est': 30},
           family='ISO round trip under 8 TZ values (concrete by-product; TZ cannot be a solver variable)')
@@ -544,3 +544,84 @@ def lemma_subtract_rounding():
     if ok:
         return {'state': 'inconclusive', 'why': f'rounding-model candidate n={nv} (and 6000 neighbours) subtracts exactly on the real evaluator'}
     return {'state': 'violation', 'detail': info, 'replay': {'module': 'vf.props.c16', 'fn': 'replay_subtract', 'kwargs': {'n': nv}}}
+
+
+def lemma_iso():
+    """regular-language facts about the ISO text path (value_string for datetimes -> value_parse_datetime), on the live regexes:
+    over the grammar of datetime.isoformat() for aware datetimes with whole-minute offsets (validated against the C function),
+    (1) the microsecond pattern fires exactly when a fraction is present, (2) the offset clean-up never fires on a whole-minute
+    offset and fires on an offset with seconds, (3) every formatted text (fraction cut to 3 digits) is fully matched by the live
+    datetime pattern, so format -> parse can never yield null for such datetimes."""
+    import random
+    import z3
+    import bare_script.value as V
+    from .. import rx2z3 as R
+    try:
+        micro, tzc, dtp = R.Rx(V._R_DATETIME_MICROSECOND, ascii_only=True), R.Rx(V._R_DATETIME_TZ_CLEANUP, ascii_only=True), R.Rx(V._R_DATETIME, ascii_only=True)
+    except R.Unsupported as exc:
+        return {'state': 'skipped', 'why': str(exc)}
+    d = R.re_range(0x30, 0x39)
+    lit = lambda s: z3.Re(z3.StringVal(s))
+    dd = z3.Concat(d, d)
+    date = z3.Concat(dd, dd, lit('-'), dd, lit('-'), dd)
+    time_ = z3.Concat(dd, lit(':'), dd, lit(':'), dd)
+    sign = R.union([lit('+'), lit('-')])
+    off = z3.Concat(sign, dd, lit(':'), dd)
+    frac6 = z3.Concat(lit('.'), z3.Loop(d, 6, 6))
+    frac3 = z3.Concat(lit('.'), z3.Loop(d, 3, 3))
+    G = z3.Concat(date, lit('T'), time_, z3.Option(frac6), off)
+    Gsec = z3.Concat(date, lit('T'), time_, z3.Option(frac6), off, lit(':'), dd)
+    Gout = z3.Concat(date, lit('T'), time_, z3.Option(frac3), off)
+    # grammar validation against the C function
+    rng = random.Random(0)
+    for _ in range(200):
+        tz = datetime.timezone(datetime.timedelta(minutes=rng.randrange(-14 * 60, 14 * 60)))
+        t = datetime.datetime(rng.randrange(1000, 9999), rng.randrange(1, 13), rng.randrange(1, 29), rng.randrange(24), rng.randrange(60),
+                              rng.randrange(60), rng.choice([0, rng.randrange(1000000)]), tzinfo=tz).isoformat()
+        s = z3.Solver()
+        s.add(z3.InRe(R.strval(t), G))
+        if str(s.check()) != 'sat':
+            return {'state': 'error', 'error': f'isoformat output {t!r} outside the modelled grammar'}
+    T = z3.String('T')
+    notes = []
+    obligations = [
+        ('microsecond pattern fires without a fraction', [z3.InRe(T, z3.Concat(date, lit('T'), time_, off)), z3.InRe(T, micro.lang_search())]),
+        ('microsecond pattern misses a fraction', [z3.InRe(T, z3.Concat(date, lit('T'), time_, frac6, off)), z3.Not(z3.InRe(T, micro.lang_search()))]),
+        ('offset clean-up fires on a whole-minute offset', [z3.InRe(T, R.union([G, Gout])), z3.InRe(T, tzc.lang_search())]),
+        ('offset clean-up misses an offset with seconds', [z3.InRe(T, Gsec), z3.Not(z3.InRe(T, tzc.lang_search()))]),
+        ('formatted text is not matched by the datetime pattern', [z3.InRe(T, Gout), z3.Not(z3.InRe(T, dtp.lang_fullline()))]),
+    ]
+    for what, cons in obligations:
+        sol = z3.Solver()
+        sol.set('timeout', 120000)
+        sol.add(*cons)
+        r = str(sol.check())
+        if r == 'sat':
+            text = R.py_str(R.model_str(sol.model(), T))
+            ok, info = replay_iso_text(text)
+            if not ok:
+                info['obligation'] = what
+                return {'state': 'violation', 'detail': info, 'replay': {'module': 'vf.props.c16', 'fn': 'replay_iso_text', 'kwargs': {'text': text}}}
+            return {'state': 'inconclusive', 'why': f'{what}: regex-level witness {text!r} round-trips on the real functions'}
+        if r != 'unsat':
+            return {'state': 'inconclusive', 'why': f'{what}: {r}'}
+        notes.append(what + ': unsat')
+    return {'state': 'unsat', 'lemma': 'ISO formatting regexes fire exactly where intended and every formatted text is within the live datetime pattern', 'notes': notes}
+
+
+def replay_iso_text(text):
+    """take the instant a solver-built ISO text denotes, push it through the real format -> parse"""
+    from bare_script.value import value_string, value_parse_datetime
+    try:
+        base = text[:19]
+        d = datetime.datetime.fromisoformat(base)
+        frac = text[19:].split('+')[0].split('-')[0]
+        if frac.startswith('.'):
+            d = d.replace(microsecond=int((frac[1:] + '000000')[:6]) // 1000 * 1000)
+    except ValueError:
+        return True, {}
+    out = value_string(d)
+    back = value_parse_datetime(out)
+    if back != d:
+        return False, {'clause': 'datetimeISOParse(datetimeISOFormat(d)) != d', 'd': repr(d), 'text': out, 'back': repr(back)}
+    return True, {}
